@@ -466,6 +466,32 @@ def mon_try_blocks(case, lines):
     return None
 
 
-MONITORS = {'try_blocks': mon_try_blocks, 'fault': mon_fault, 'twice': mon_twice, 'exclusive': mon_exclusive, 'order': mon_order, 'stranded': mon_stranded,
+def mon_try_null_iff(case, lines):
+    """C08: a try / timed shared acquisition returns a null handle only if the lock was not obtainable: a failed
+    shared try while no OTHER thread holds the wrapper mutex exclusively (e.g. blocked by the caller's own flush
+    lock) is a violation.  Shared-capable mutex kinds only; ownership is tracked from the trace."""
+    if not shcap(case['cfg']):
+        return None
+    outer = set()
+    for l in lines:
+        if len(l) == 5 and l[0] >= 0 and l[1] in (K['TRYLOCK_SH'], K['TRYLOCK_SH_FOR'], K['LOCK_SH']):
+            outer.add(l[2])
+    owner = {}
+    for i, l in enumerate(lines):
+        if len(l) != 5 or l[0] < 0 or l[2] not in outer:
+            continue
+        t, k, o, v, m = l
+        if k in (K['LOCK'],) or (k in (K['TRYLOCK'], K['TRYLOCK_FOR']) and v == 1):
+            owner[o] = t
+        elif k == K['UNLOCK'] and owner.get(o) == t:
+            owner.pop(o, None)
+        elif k in (K['TRYLOCK_SH'], K['TRYLOCK_SH_FOR']) and v == 0:
+            if owner.get(o) is None or owner.get(o) == t:
+                return ('thread %d: shared try-acquisition failed at trace line %d although no other thread held the mutex '
+                        'exclusively (holder: %s): a null handle for an obtainable lock' % (t, i, owner.get(o)))
+    return None
+
+
+MONITORS = {'try_null_iff': mon_try_null_iff, 'try_blocks': mon_try_blocks, 'fault': mon_fault, 'twice': mon_twice, 'exclusive': mon_exclusive, 'order': mon_order, 'stranded': mon_stranded,
             'lost': mon_lost, 'payload': mon_payload, 'future': mon_future, 'exn': mon_exn, 'lock_leaked': mon_lock_leaked,
             'deadlock': mon_deadlock, 'seq_cst': mon_seq_cst, 'trace': mon_trace}
